@@ -90,6 +90,19 @@ pub fn replay(id: &str, doc: &Value) -> i32 {
     }
     match id {
         "C04" | "C18" if !case["authenticator_ops"].is_null() => c04::replay(case),
+        "C18" | "C05" if !case["requirement_ops"].is_null() => {
+            let seq: Vec<u64> = case["requirement_ops"].as_array().map(|a| a.iter().filter_map(|x| x.as_u64()).collect()).unwrap_or_default();
+            match c18::requirement_ops(&seq) {
+                None => {
+                    println!("agrees");
+                    0
+                }
+                Some((pos, exp, obs)) => {
+                    println!("step {} of {:?}: expected {} observed {}", pos, seq, exp, obs);
+                    1
+                }
+            }
+        }
         "C13" => c13::replay(case),
         "C14" => c14::replay(case),
         "C15" if !case["c15"].is_null() => c15::replay(case),
